@@ -839,7 +839,8 @@ def rule_r14(ctx) -> RuleResult:
 
     returns = []
 
-    def run(stmts, env):
+    def run(stmts, env) -> bool:
+        """interpret a block; True when every path through it has left the block (return / continue / break / raise)"""
         for st in stmts:
             if isinstance(st, ast.Assign) and len(st.targets) == 1 and isinstance(st.targets[0], ast.Name):
                 env[st.targets[0].id] = ev(st.value, env)
@@ -852,15 +853,19 @@ def rule_r14(ctx) -> RuleResult:
             elif isinstance(st, ast.If):
                 t = st.test
                 if isinstance(t, ast.Name) and t.id == "lower":
-                    run(st.body, env)
+                    if run(st.body, env):
+                        return True
                 elif isinstance(t, ast.UnaryOp) and isinstance(t.op, ast.Not) and isinstance(t.operand, ast.Name) and t.operand.id == "lower":
-                    run(st.orelse, env)
+                    if run(st.orelse, env):
+                        return True
                 else:
                     e1, e2 = dict(env), dict(env)
-                    run(st.body, e1)
-                    run(st.orelse, e2)
-                    for k in set(e1) | set(e2):
-                        env[k] = e1.get(k, U_) and e2.get(k, U_)
+                    t1, t2 = run(st.body, e1), run(st.orelse, e2)
+                    if t1 and t2:
+                        return True
+                    live = [e_ for e_, t_ in ((e1, t1), (e2, t2)) if not t_]
+                    for k in set().union(*[set(e_) for e_ in live]):
+                        env[k] = all(e_.get(k, U_) for e_ in live)
             elif isinstance(st, ast.For):
                 # loop variables over unknown data are unlowered; two passes reach the fixed point of this two-point domain
                 for nm in [n.id for n in ast.walk(st.target) if isinstance(n, ast.Name)]:
@@ -870,8 +875,12 @@ def rule_r14(ctx) -> RuleResult:
             elif isinstance(st, ast.Return):
                 if st.value is not None:
                     returns.append((st, ev(st.value, env)))
+                return True
+            elif isinstance(st, (ast.Continue, ast.Break, ast.Raise)):
+                return True
             elif isinstance(st, (ast.With, ast.Try, ast.While)):
                 raise AnalysisError("namespace_prefixes: statement kind {} outside the interpreted fragment".format(type(st).__name__))
+        return False
 
     run([s_ for s_ in fn.body if not (isinstance(s_, ast.Expr) and isinstance(s_.value, ast.Constant))], {})
     nonempty = [(r, ok) for r, ok in returns if not (isinstance(r.value, (ast.Tuple, ast.List)) and not r.value.elts)]
